@@ -689,7 +689,7 @@ func checkTypedDoc(c TypedDocCase, r *Recorder) error {
 	case "control":
 		if len(c.Text)%4 == 0 {
 			// the file-based entry point
-			if f, ferr := os.CreateTemp("", "c10-control-*"); ferr == nil {
+			if f, ferr := os.CreateTemp(workDir(), "c10-control-*"); ferr == nil {
 				f.WriteString(c.Text)
 				f.Close()
 				fromFile, err := control.ParseControlFile(f.Name())
@@ -881,7 +881,7 @@ var specC10GetDSC = Register(&Spec[GetDscCase]{
 		if c.DscName != "" && c.Pos > 0 {
 			r.Sample(map[string]interface{}{"dscName": c.DscName, "pos": c.Pos})
 		}
-		dir, err := os.MkdirTemp("", "c10-")
+		dir, err := os.MkdirTemp(workDir(), "c10-")
 		if err != nil {
 			return errf("HARNESS: %v", err)
 		}
